@@ -1,4 +1,5 @@
 """C18 — calls are pure, repeatable and safe to run concurrently on shared inputs."""
+import glob
 import json
 import os
 import re
@@ -65,11 +66,19 @@ def run(ctx):
                     out.write(json.dumps(e) + "\n")
                     n += 1
     ctx.validate_traces("C18_shared", "TraceSharedUse", [combined])
+    # lazily initialised curve parameters: every twisted Edwards point method as the FIRST library call of a fresh process
+    # (one process per curve and method), judged by the group law of C02's trace specification
+    try:
+        log(ctx.run_harness(builds[0][1], ["c18fresh", "-out", tdir, "-seed", str(ctx.seed)], timeout=1500).strip().splitlines()[-1])
+        ctx.validate_traces("C02_group", "TraceEdwards", sorted(glob.glob(os.path.join(tdir, "c18fresh_*.ndjson"))))
+    except Crash as ex:
+        ctx.crash_violation(ex, "fresh-process probe")
     ctx.samples = [{"trace": "c18_all.ndjson", "events": open(combined).readlines()[2:5]}]
     return ctx.finish(
         rule="subjects = exported computations with the objects they must not modify (pairing variants with precomputed lines, MSM, KZG with "
              "SRS/vk, FFT with a shared domain, Poseidon2/MiMC parameters, EdDSA/ECDSA keys, hash-to-curve, stream decoder, pooled big.Int "
              "users); each run 3x sequentially (interleaved), then by 2..64 goroutines at once, under several GOMAXPROCS, in three builds: "
-             "default assembly, poisoned scratch pool, -race -tags purego",
+             "default assembly, poisoned scratch pool, -race -tags purego; "
+             "every twisted Edwards point method as the first library call of a fresh process (lazy curve parameters), judged by the group law",
         assumptions=["the Go race detector and scheduler are observation instruments: absence of a report on the explored schedules is what is claimed",
                      "result digests are SHA-256 prefixes of the raw encodings"])
